@@ -8,8 +8,8 @@ mkdir -p "$RES"
 EV=/tmp/verif-eval; WT=/tmp/verif-eval-wt
 rsync -a --delete --exclude .git --exclude .build --exclude evidence --exclude replays /verif/ $EV/
 [ -d $WT ] || git -C /repo worktree add --detach $WT HEAD >/dev/null 2>&1
-for d in $SRC/mut-C*; do
-  id=$(basename $d | sed 's/mut-//')
+for d in $SRC/${MUT_PREFIX:-mut}-C*; do
+  id=$(basename $d | sed "s/.*-//")
   for diff in $d/MUTANT*.diff; do
     [ -f "$diff" ] || continue
     n=$(basename $diff .diff)
